@@ -271,12 +271,36 @@ Theorem C15_div_rem_long_zero_divisor : forall (F : Type) (FO : FieldOps F) (FL 
 Proof. exact @div_rem_long_zero_divisor. Qed.
 
 (* ------------------------------------------------------------------------------------------ *)
-(* f. div_rem (Newton inversion) and inv_mod_xn.
+(* f. div_rem (Newton inversion) and inv_mod_xn (stretch, proved on the repaired code).
    History: on the code before /repo commit 119d559 the faithful model REFUTED the defining identity
    (former theorems C15_div_rem_newton_refuted, C15_inv_mod_xn_refuted, C15_inv_mod_xn_panics:
    inv_mod_xn appended the trimmed Newton correction at the wrong offset - wrong inverse or a panic in
    drain(n..) -, and div_rem trimmed rev_q before reversing it, losing low-order zero coefficients of
-   the quotient).  Both defects were repaired by that commit; Model/PolyOps.v mirrors the repaired code. *)
+   the quotient).  Both defects were repaired by that commit; Model/PolyOps.v mirrors the repaired code.
+   M bounds the transform sizes that occur (the products go through the FFT). *)
+
+(* inv_mod_xn(p, n), n > 0, p(0) <> 0: the call succeeds and p * a = 1 mod X^n, i.e. the first n
+   coefficients of the schoolbook product [pmul p a] are 1, 0, .., 0 (Newton invariant
+   a_i * h = 1 mod X^(2^i)); a has n coefficients, or the single coefficient 1/p(0) for constant p *)
+Theorem C15_inv_mod_xn_spec : forall (F : Type) (FO : FieldOps F) (FL : FieldLaws F) (TA : TwoAdic F) (TL : TwoAdicLaws F)
+  (M : nat), (M <= ta_two_adicity)%nat -> (M < 64)%nat ->
+  forall (p : list F) (n : nat), (0 < n)%nat -> nth 0 p fzero <> fzero ->
+  let Hm := Nat.max (length p) n in
+  (Hm + Hm <= 2 ^ M)%nat -> (2 * 2 ^ log2_ceil_nat Hm <= 2 ^ M)%nat ->
+  exists a, inv_mod_xn p n = Some a /\
+            length a = (if Nat.eqb (degree_plus_one p) 1 then 1 else n)%nat /\
+            forall i, (i < n)%nat -> nth i (pmul p a) fzero = nth i [fone] fzero.
+Proof. exact @inv_mod_xn_spec. Qed.
+
+(* div_rem, all five branches including the Newton path: a = q b + r and deg r < deg b *)
+Theorem C15_div_rem_spec : forall (F : Type) (FO : FieldOps F) (FL : FieldLaws F) (TA : TwoAdic F) (TL : TwoAdicLaws F)
+  (a b : list F), degree_plus_one b <> 0%nat ->
+  let M := S (log2_ceil_nat (length a + length b)) in
+  (M <= ta_two_adicity)%nat -> (M < 64)%nat ->
+  exists q r, div_rem a b = Some (q, r) /\
+              (forall x, peval a x = fadd (fmul (peval q x) (peval b x)) (peval r x)) /\
+              (degree_plus_one r < degree_plus_one b)%nat.
+Proof. exact @div_rem_spec. Qed.
 
 (* ------------------------------------------------------------------------------------------ *)
 (* interpolation: partial *)
@@ -291,17 +315,34 @@ Theorem C15_interpolate2_spec : forall (F : Type) (FO : FieldOps F) (FL : FieldL
                          (x = a0 -> v = a1) /\ (x = b0 -> v = b1)).
 Proof. exact @interpolate2_spec. Qed.
 
-(* interpolate_spec is proved only on the nodes (the early-return branch); missing: for x off the
-   nodes and barycentric weights w_i = 1 / prod_{j<>i} (x_i - x_j), the value l(x) * sum_i w_i y_i / (x - x_i)
-   equals the Lagrange interpolant, and interpolant(points) = Some c with length c <= n and
-   peval c x_i = y_i for pairwise distinct abscissae.  Both are tied by correspondence and by the
-   Python oracle (direct Lagrange form) only. *)
+(* interpolate_spec: on a node the stored ordinate is returned (C15_interpolate_on_node_partial: the
+   early-return branch); off the nodes the value is sum_i w_i y_i prod_{j<>i} (x - x_j)
+   (C15_interpolate_off_node_spec), and the barycentric weights satisfy w_i prod_{j<>i} (x_i - x_j) = 1
+   (C15_barycentric_weights_spec) - together: the value of the Lagrange interpolant.
+   Still missing (correspondence and Python oracle only): `interpolant(points)` = Some c with
+   length c <= n and peval c x_i = y_i. *)
 Theorem C15_interpolate_on_node_partial : forall (F : Type) (FO : FieldOps F) (FL : FieldLaws F)
   (points : list (F * F)) (w : list F) i x_i y_i,
   nth_error points i = Some (x_i, y_i) ->
   (forall j p, (j < i)%nat -> nth_error points j = Some p -> fst p <> x_i) ->
   interpolate points x_i w = Some y_i.
 Proof. exact @interpolate_on_node_partial. Qed.
+
+Theorem C15_barycentric_weights_spec : forall (F : Type) (FO : FieldOps F) (FL : FieldLaws F) (points : list (F * F)),
+  (forall i j, (i < length points)%nat -> (j < length points)%nat -> i <> j -> px points i <> px points j) ->
+  exists w, barycentric_weights points = Some w /\ length w = length points /\
+    forall i, (i < length points)%nat ->
+      fmul (nth i w fzero) (fproduct (map (fun j => fsub (px points i) (px points j)) (others (length points) i))) = fone.
+Proof. exact @barycentric_weights_spec. Qed.
+
+Theorem C15_interpolate_off_node_spec : forall (F : Type) (FO : FieldOps F) (FL : FieldLaws F)
+  (points : list (F * F)) (x : F) (w : list F),
+  (forall i, (i < length points)%nat -> px points i <> x) -> length w = length points ->
+  interpolate points x w =
+  Some (fsum_l (map (fun i => fmul (fmul (nth i w fzero) (py points i))
+                                   (fproduct (map (fun j => fsub x (px points j)) (others (length points) i))))
+                    (seq 0 (length points)))).
+Proof. exact @interpolate_off_node_spec. Qed.
 
 (* ------------------------------------------------------------------------------------------ *)
 (* non-vacuity: the Goldilocks field satisfies the hypotheses, and a concrete transform *)
@@ -318,5 +359,7 @@ Qed.
 Example C15_fft_example :
   zs (fft (fps [1; 2; 3; 4]%Z)) = [10; 18446181119461163007; 18446744069414584319; 562949953421310]%Z
   /\ zs (ifft (fft (fps [1; 2; 3; 4]%Z))) = [1; 2; 3; 4]%Z
-  /\ run_divremlong [4; 0; 1; 0; 1; 1; 0; 1]%Z = Some [2; 0; 1]%Z.
+  /\ run_divremlong [4; 0; 1; 0; 1; 1; 0; 1]%Z = Some [2; 0; 1]%Z
+  /\ run_divrem [4; 0; 1; 0; 1; 1; 0; 1]%Z = Some [2; 0; 1]%Z
+  /\ run_invmodxn [5; 1; 0; 18446744069414584320]%Z = Some [1; 0; 1; 0; 1]%Z.
 Proof. vm_compute. repeat split. Qed.
